@@ -129,13 +129,14 @@ PROPS = {
         "not_decided": ["nested containers skipped element-wise end-to-end (composition of the per-kind contracts)", "more than two size-prefixed blocks per skip call"],
     },
     "C15": {
+        "verus": ["writer_history"],
         "level": "proof",
         "design_ref": "DESIGN.md §3 C15",
         "technique": "inductive one-step contracts of the container Writer from an arbitrary well-formed state (Kani), block bytes compared with the specification's block layout",
         "level_text": "Deductive, inductive in the call history: each public entry point (serialize ok, serialize failing after partial output, push_serialized, finish_block, "
                       "into_inner, Drop) is proved from an ARBITRARY quiescent well-formed writer state (any element count, any sync marker, any approx_block_size incl. 0, any earlier "
                       "sink content) to re-establish well-formedness, to grow the sink only by complete blocks of the specified layout, to count a value once iff Ok, and to leave "
-                      "buffer and count untouched for a failed value. Histories of any length follow by induction; only the open buffer's byte length is bounded (<= 3), labelled.",
+                      "buffer and count untouched for a failed value. Histories of any length follow by induction - machine-checked as the Verus lemma writer_history over the step contracts abstracted to values (sink blocks ++ open block == the successfully serialized values, in order, once; after a flush / into_inner / drop the file holds all of them); only the open buffer's byte length is bounded (<= 3), labelled.",
         "level_note": "Null codec only (compression is external, C05); Writer states are constructed directly (header writing by build() goes through serde flatten + serde_json and is a "
                       "bounded C06 obligation when tractable); sink = Vec<u8>; Schema via the static-node constructor; A1 A4 A8.",
         "assumptions": [A1, A4, A7, A8, A9],
